@@ -4,6 +4,7 @@ import (
 	"bytes"
 	"encoding/json"
 	"fmt"
+	"github.com/tobgu/qframe/config/groupby"
 	"strings"
 	"testing"
 
@@ -313,7 +314,7 @@ func TestC17(t *testing.T) {
 				// the error must surface from wherever in a clause tree the comparison stands
 				wrapped := cl
 				ok := hx.NoArg("e", "isnotnull")
-				wrap := rapid.SampledFrom([]string{"plain", "plain", "not(and)", "not(or)", "not(not)", "and", "or", "and(ok,x)", "or(ok,x)", "not(and(ok,x))", "or(and(x),ok)"}).Draw(t, "wrap")
+				wrap := rapid.SampledFrom([]string{"plain", "plain", "not(and)", "not(or)", "not(not)", "and", "or", "and(ok,x)", "or(ok,x)", "not(and(ok,x))", "or(and(x),ok)", "or(all,not(x))", "or(all,and(x))", "or(all,x)", "and(none,x)"}).Draw(t, "wrap")
 				switch wrap {
 				case "not(and)":
 					wrapped = hx.Clause{Op: "not", Kids: []hx.Clause{{Op: "and", Kids: []hx.Clause{cl}}}}
@@ -333,6 +334,14 @@ func TestC17(t *testing.T) {
 					wrapped = hx.Clause{Op: "not", Kids: []hx.Clause{{Op: "and", Kids: []hx.Clause{ok, cl}}}}
 				case "or(and(x),ok)":
 					wrapped = hx.Clause{Op: "or", Kids: []hx.Clause{{Op: "and", Kids: []hx.Clause{cl}}, ok}}
+				case "or(all,not(x))": // the rows are all selected before the invalid comparison is reached
+					wrapped = hx.Clause{Op: "or", Kids: []hx.Clause{{Op: "null"}, {Op: "not", Kids: []hx.Clause{cl}}}}
+				case "or(all,and(x))":
+					wrapped = hx.Clause{Op: "or", Kids: []hx.Clause{hx.IntConst("id", ">=", 0), {Op: "and", Kids: []hx.Clause{cl}}}}
+				case "or(all,x)":
+					wrapped = hx.Clause{Op: "or", Kids: []hx.Clause{hx.IntConst("id", ">=", 0), cl}}
+				case "and(none,x)": // ... or none is left
+					wrapped = hx.Clause{Op: "and", Kids: []hx.Clause{hx.IntConst("id", "<", 0), cl}}
 				}
 				opDesc += " wrapped as " + wrap
 				res := qf.Filter(wrapped.Build(hx.KindMap(tab)))
@@ -407,8 +416,39 @@ func TestC17(t *testing.T) {
 				break // rank order of derived enums is unspecified
 			}
 			o := hx.Order{Col: "e", Reverse: rapid.Bool().Draw(t, "rev"), NullLast: rapid.Bool().Draw(t, "nulllast")}
-			opDesc = "sort " + o.String()
-			res := qf.Sort(hx.BuildOrders([]hx.Order{o})...)
+			// the column keeps its declared order through operations that rebuild it: as the key column of an
+			// Aggregate or Distinct result, as a copy, as the result of the ToUpper built-in
+			via := rapid.SampledFrom([]string{"direct", "direct", "aggregate-key", "distinct", "copy", "toupper"}).Draw(t, "sortvia")
+			src, srcDecl := qf, enumConf
+			switch via {
+			case "aggregate-key":
+				src = qf.GroupBy(groupby.Columns("e")).Aggregate(qframe.Aggregation{Fn: "min", Column: "id"}) // id stays a unique row identity
+			case "distinct":
+				src = qf.Distinct(groupby.Columns("e"))
+			case "copy":
+				src = qf.Copy("e2", "e").Drop("e").Copy("e", "e2").Drop("e2")
+			case "toupper":
+				src = qf.Apply(qframe.Instruction{Fn: "ToUpper", DstCol: "e", SrcCol1: "e"})
+				srcDecl = make([]string, len(enumConf))
+				for i, v := range enumConf {
+					srcDecl[i] = strings.ToUpper(v)
+				}
+			}
+			if src.Err != nil {
+				t.Fatalf("%s failed: %v\n%s", via, src.Err, full())
+			}
+			srcObs, err := hx.Observe(src)
+			if err != nil {
+				t.Fatal(err)
+			}
+			if ei := srcObs.Find("e"); ei >= 0 && srcObs.Cols[ei].Kind == hx.KEnum {
+				srcObs.Cols[ei].Enum = srcDecl
+			} else {
+				t.Fatalf("after %s the column e is no enum column any more\n%s", via, full())
+			}
+			tab := srcObs
+			opDesc = "sort " + o.String() + " via " + via
+			res := src.Sort(hx.BuildOrders([]hx.Order{o})...)
 			if res.Err != nil {
 				t.Fatalf("sort failed: %v\n%s", res.Err, full())
 			}
